@@ -213,7 +213,8 @@ var exitingCalls = map[string]bool{"panic": true, "exit": true, "os.Exit": true,
 
 // factsAtLeaf is factsAt with a caller-supplied rendering of the leaves of conditions.
 func factsAtLeaf(root ast.Node, pos token.Pos, leaf func(ast.Expr) string) []string {
-	canonCond := func(e ast.Expr, neg bool) string { return canonCondWith(e, neg, leaf) }
+	inline := boolLocalInliner(root)
+	canonCond := func(e ast.Expr, neg bool) string { return canonCondWith(inline(e), neg, leaf) }
 	var out []string
 	var visitBlock func(list []ast.Stmt)
 	terminates := func(b *ast.BlockStmt) bool {
@@ -443,4 +444,84 @@ func nospaceLit(e ast.Expr) string {
 		}
 	}
 	return b.String()
+}
+
+// boolLocalInliner: a local that is defined once (`name := <boolean expression>`, never assigned again, address never
+// taken) names its definition; conditions are read with such names replaced (`wantHelp := *h || *help; if wantHelp`).
+func boolLocalInliner(root ast.Node) func(ast.Expr) ast.Expr {
+	defs := map[string]ast.Expr{}
+	count := map[string]int{}
+	ast.Inspect(root, func(n ast.Node) bool {
+		switch x := n.(type) {
+		case *ast.AssignStmt:
+			for i, l := range x.Lhs {
+				id, ok := l.(*ast.Ident)
+				if !ok {
+					continue
+				}
+				count[id.Name]++
+				if x.Tok == token.DEFINE && len(x.Lhs) == len(x.Rhs) {
+					switch r := x.Rhs[i].(type) {
+					case *ast.BinaryExpr:
+						switch r.Op {
+						case token.LOR, token.LAND, token.EQL, token.NEQ, token.LSS, token.GTR, token.LEQ, token.GEQ:
+							defs[id.Name] = r
+						}
+					case *ast.UnaryExpr:
+						if r.Op == token.NOT {
+							defs[id.Name] = r
+						}
+						if r.Op == token.AND {
+							count[id.Name] += 2
+						}
+					}
+				}
+			}
+		case *ast.UnaryExpr:
+			if x.Op == token.AND {
+				if id, ok := x.X.(*ast.Ident); ok {
+					count[id.Name] += 2
+				}
+			}
+		case *ast.IncDecStmt:
+			if id, ok := x.X.(*ast.Ident); ok {
+				count[id.Name] += 2
+			}
+		case *ast.ValueSpec:
+			for _, nm := range x.Names {
+				count[nm.Name] += 2 // declared with var: not a single := definition
+			}
+		case *ast.RangeStmt:
+			for _, e := range []ast.Expr{x.Key, x.Value} {
+				if id, ok := e.(*ast.Ident); ok {
+					count[id.Name] += 2
+				}
+			}
+		}
+		return true
+	})
+	var rewrite func(e ast.Expr, depth int) ast.Expr
+	rewrite = func(e ast.Expr, depth int) ast.Expr {
+		if depth > 4 {
+			return e
+		}
+		switch x := e.(type) {
+		case *ast.Ident:
+			if d, ok := defs[x.Name]; ok && count[x.Name] == 1 {
+				return &ast.ParenExpr{X: rewrite(d, depth+1)}
+			}
+		case *ast.ParenExpr:
+			return &ast.ParenExpr{X: rewrite(x.X, depth)}
+		case *ast.UnaryExpr:
+			if x.Op == token.NOT {
+				return &ast.UnaryExpr{Op: x.Op, X: rewrite(x.X, depth)}
+			}
+		case *ast.BinaryExpr:
+			if x.Op == token.LOR || x.Op == token.LAND {
+				return &ast.BinaryExpr{Op: x.Op, X: rewrite(x.X, depth), Y: rewrite(x.Y, depth)}
+			}
+		}
+		return e
+	}
+	return func(e ast.Expr) ast.Expr { return rewrite(e, 0) }
 }
